@@ -2,7 +2,8 @@
   C01 — the documented rule table (docs/website/annotations/giannotations.rst and the property
   statement), independent of the model's control flow: for every annotation, where it is valid
   (`Valid ann site`) and which GIR attribute it must produce (`Expected ann site`), after the
-  documented overrides: `(not nullable)` beats `(nullable)`; `floating` is written as `none`;
+  documented overrides: `(not nullable)` beats `(nullable)`; `(not optional)` beats `(optional)` (and the
+  optional meaning of `(allow-none)` on an out parameter); `floating` is written as `none`;
   `inout` beats `out` beats `in`; `(allow-none)` means optional on out parameters and nullable
   elsewhere.
 -/
@@ -14,6 +15,7 @@ open GIVerif.Py
 inductive Ann where
   | skip
   | notNullable
+  | notOptional
   | nullable
   | optional
   | allowNone
@@ -31,7 +33,8 @@ structure Site where
   floatable : Bool   -- object, interface, GVariant, GClosure
   container : Bool   -- array / list / hash table, or an (array) annotation is present
   ownable : Bool     -- pointer, string, array, struct, union, boxed, object, interface
-  hasNot : Bool      -- a (not ...) annotation is present as well
+  hasNot : Bool      -- a (not nullable) annotation (or a bare / unknown (not ...)) is present as well
+  hasNotOptional : Bool  -- a (not optional) annotation is present as well
   hasOut : Bool
   hasInout : Bool
   deriving Repr
@@ -44,6 +47,7 @@ inductive AttrUpdate where
 def Valid : Ann → Site → Bool
   | .skip, _ => true
   | .notNullable, _ => true
+  | .notOptional, _ => true
   | .nullable, s => s.pointer
   | .optional, s => !s.isRet && (s.dir == .out || s.dir == .inout)
   | .allowNone, s => (s.dir == .out && !s.isRet) || s.pointer
@@ -59,10 +63,12 @@ def Valid : Ann → Site → Bool
 def Expected : Ann → Site → AttrUpdate
   | .skip, _ => .has (G "skip") (G "1")
   | .notNullable, _ => .lacks (G "nullable")
+  | .notOptional, _ => .lacks (G "optional")
   | .nullable, s => if s.hasNot then .lacks (G "nullable") else .has (G "nullable") (G "1")
-  | .optional, _ => .has (G "optional") (G "1")
+  | .optional, s => if s.hasNotOptional then .lacks (G "optional") else .has (G "optional") (G "1")
   | .allowNone, s =>
-    if s.dir == .out && !s.isRet then .has (G "optional") (G "1")
+    if s.dir == .out && !s.isRet then
+      (if s.hasNotOptional then .lacks (G "optional") else .has (G "optional") (G "1"))
     else if s.hasNot then .lacks (G "nullable") else .has (G "nullable") (G "1")
   | .dirIn, _ => .lacks (G "direction")
   | .dirOut, _ => .has (G "direction") (G "out")
@@ -72,7 +78,8 @@ def Expected : Ann → Site → AttrUpdate
 /-- the annotation is written on the part (with well-formed options) -/
 def Present (a : Anns) : Ann → Prop
   | .skip => a.skip.isSome = true
-  | .notNullable => a.not_.isSome = true
+  | .notNullable => notNullableAnn a = true
+  | .notOptional => notOptionalAnn a = true
   | .nullable => a.nullable.isSome = true
   | .optional => a.optional.isSome = true
   | .allowNone => a.allowNone.isSome = true
@@ -96,7 +103,8 @@ def siteOf (n : Node) (a : Anns) (ty1 : Ty) (p1 : Bool) (p2 : Bool) : Site :=
                  || nodeTypeGiname ty1 == some (G "GObject.Closure")
     container := a.array.isSome || ty1.isContainer
     ownable := p1 || nodeTypeIsString ty1 || ty1.isContainer || isCompoundLike ty1.cls
-    hasNot := a.not_.isSome
+    hasNot := notNullableAnn a
+    hasNotOptional := notOptionalAnn a
     hasOut := a.out.isSome
     hasInout := a.inout.isSome }
 
